@@ -221,6 +221,23 @@ Exporter13(h, master, msgs, label, ctx, n) ==
   LET ems == DeriveSecret(h, master, Str("exp master"), msgs)
   IN ExpandLabel(h, DeriveSecret(h, ems, label, Empty), Str("exporter"), Hash(h, ctx), n)
 
+(* RFC 8446 7.1, the whole schedule of a full (EC)DHE handshake without PSK:
+     Early Secret     = HKDF-Extract(0, 0)
+     Handshake Secret = HKDF-Extract(Derive-Secret(Early Secret, "derived", ""), (EC)DHE)
+     client/server_handshake_traffic_secret = Derive-Secret(Handshake Secret, "c/s hs traffic", ClientHello...ServerHello)
+     Master Secret    = HKDF-Extract(Derive-Secret(Handshake Secret, "derived", ""), 0)
+     client/server_application_traffic_secret_0 = Derive-Secret(Master Secret, "c/s ap traffic", ClientHello...server Finished)
+     exporter_master_secret = Derive-Secret(Master Secret, "exp master", ClientHello...server Finished)
+   Outputs: the four traffic secrets (what KeyLogWriter records) and TLS-Exporter(label, context, n). *)
+Schedule13(h, shared, tsh, tsf, label, ctx, n) ==
+  LET zeros == Rep(HLen(h), 0)
+      early == HkdfExtract(h, zeros, zeros)
+      hs == HkdfExtract(h, DeriveSecret(h, early, Str("derived"), Empty), shared)
+      master == HkdfExtract(h, DeriveSecret(h, hs, Str("derived"), Empty), zeros)
+  IN << DeriveSecret(h, hs, Str("c hs traffic"), tsh), DeriveSecret(h, hs, Str("s hs traffic"), tsh),
+        DeriveSecret(h, master, Str("c ap traffic"), tsf), DeriveSecret(h, master, Str("s ap traffic"), tsf),
+        Exporter13(h, master, tsf, label, ctx, n) >>
+
 ----------------------------------------------------------------------------
 (* Parameter records -> cases.
 
@@ -266,6 +283,8 @@ OutOf(p) ==
     [] p.fn = "nexttraffic" -> << NextTraffic(Suite13Of(p.suite).h, Secret(p)) >>
     [] p.fn = "finished13" -> << Finished13(Suite13Of(p.suite).h, Secret(p), Transcript(p)) >>
     [] p.fn = "exporter13" -> << Exporter13(Suite13Of(p.suite).h, Secret(p), Transcript(p), LabelOf(p), Ctx(p), p.n) >>
+    \* end-to-end: sl = length of the (EC)DHE secret, tp = <<length of ClientHello..ServerHello, length of ClientHello..server Finished>>
+    [] p.fn = "e2e13" -> Schedule13(Suite13Of(p.suite).h, Secret(p), Var("tsh", p.tp[1]), Var("tsf", p.tp[2]), LabelOf(p), Ctx(p), p.n)
 
 (* Demanded refusals: RFC 5705 reserved labels; a context longer than its 16-bit length. *)
 ErrOf(p) ==
@@ -279,9 +298,10 @@ InDomain(p) ==
   /\ p.fn \in {"prfver", "master", "keyblock", "finished", "ekm"} =>
         /\ p.ver \in Versions /\ p.suite \in SuiteIds
         /\ SuiteOf(p.suite).t12 => p.ver = V12
-  /\ p.fn \in {"expandlabel", "derive", "extract", "traffickey", "nexttraffic", "finished13", "exporter13"} =>
+  /\ p.fn \in {"expandlabel", "derive", "extract", "traffickey", "nexttraffic", "finished13", "exporter13", "e2e13"} =>
         p.suite \in {s.id : s \in Suites13}
-  /\ p.fn \in {"expandlabel", "derive", "exporter13"} =>
+  /\ p.fn = "e2e13" => Len(p.tp) = 2
+  /\ p.fn \in {"expandlabel", "derive", "exporter13", "e2e13"} =>
         /\ (IF p.ll = -1 THEN StrLen(p.label) ELSE p.ll) + 6 <= 255      \* opaque label<7..255>
   /\ p.fn = "expandlabel" => p.cl >= 0 /\ p.cl <= 255                    \* opaque context<0..255>
 
